@@ -86,7 +86,11 @@ func (p *Program) fieldWriters(pkg, typ, field string) []fieldWrite {
 				switch x := in.(type) {
 				case *ssa.Store:
 					if fa, ok := x.Addr.(*ssa.FieldAddr); ok && isFieldOf(fa, pkgPath, typ, field) {
-						out = append(out, fieldWrite{f, "assign", x.Pos()})
+						kind := "assign"
+						if copiesField(x.Val, pkgPath, typ, field, 0) {
+							kind = "assign-copy-of-itself" // c.f = append([]byte(nil), c.f...): re-binds the same contents
+						}
+						out = append(out, fieldWrite{f, kind, x.Pos()})
 						continue
 					}
 					if ia, ok := x.Addr.(*ssa.IndexAddr); ok {
@@ -198,6 +202,53 @@ func calleeWritesParam(p *Program, f *ssa.Function, i int, seen map[*ssa.Functio
 				}
 			}
 		}
+	}
+	return false
+}
+
+// copiesField: v is a fresh slice built only from the current contents of the field itself
+// (append(nil-or-empty, x.f...), possibly re-sliced or converted).
+func copiesField(v ssa.Value, pkgPath, typ, field string, depth int) bool {
+	if depth > 6 {
+		return false
+	}
+	switch x := v.(type) {
+	case *ssa.Call:
+		b, ok := x.Call.Value.(*ssa.Builtin)
+		if !ok || b.Name() != "append" || len(x.Call.Args) != 2 {
+			return false
+		}
+		// first argument: nil / empty literal / make of length 0
+		switch a := x.Call.Args[0].(type) {
+		case *ssa.Const:
+			if a.Value != nil {
+				return false
+			}
+		case *ssa.MakeSlice:
+			if k, ok := a.Len.(*ssa.Const); !ok || k.Value == nil || k.Value.ExactString() != "0" {
+				return false
+			}
+		case *ssa.Slice:
+			// []byte{}[:] of an empty array literal
+			if at, ok := a.X.Type().Underlying().(*types.Pointer); !ok {
+				return false
+			} else if arr, ok := at.Elem().Underlying().(*types.Array); !ok || arr.Len() != 0 {
+				return false
+			}
+		default:
+			return false
+		}
+		return copiesField(x.Call.Args[1], pkgPath, typ, field, depth+1)
+	case *ssa.Slice:
+		return copiesField(x.X, pkgPath, typ, field, depth+1)
+	case *ssa.ChangeType:
+		return copiesField(x.X, pkgPath, typ, field, depth+1)
+	case *ssa.UnOp:
+		if x.Op != token.MUL {
+			return false
+		}
+		fa, ok := x.X.(*ssa.FieldAddr)
+		return ok && isFieldOf(fa, pkgPath, typ, field)
 	}
 	return false
 }
